@@ -72,7 +72,7 @@ func newExec(p *ssa.Program, h *Harness, cfg *RunConfig, wid int) (*Exec, error)
 		tier = 1
 	}
 	ex := &Exec{C: c, S: s, Prog: p, H: h, St: newStats(),
-		globals: map[*ssa.Global]*Object{}, inited: map[*ssa.Package]bool{}, initing: map[*ssa.Package]bool{},
+		globals: map[*ssa.Global]*Object{}, inited: map[*ssa.Package]bool{}, initing: map[*ssa.Package]bool{}, initSkipped: map[*ssa.Package]bool{}, lazyIniting: map[*ssa.Global]bool{}, initAssigned: map[*ssa.Package]map[*ssa.Global]bool{},
 		fnInfos: map[*ssa.Function]*fnInfo{}, typeIDs: map[string]types.Type{}, uniq: map[string]*Object{},
 		violKeys: map[string]bool{}, sampled: map[string]bool{}, Tier: tier,
 		deadline: cfg.Deadline, mergeFail: map[mergeKey]int{}, pcSet: map[*Term]int{}, unsatCache: map[int][]unsatEntry{}}
